@@ -1058,6 +1058,7 @@ int cif_container_get_value(
         ) {
     FAILURE_HANDLING;
     cif_tp *cif = container->cif;
+    cif_value_tp *created = NULL;
     UChar *name_norm;
     int result;
 
@@ -1097,6 +1098,7 @@ int cif_container_get_value(
                             /* hand the value off to the caller */
                             if (*val == NULL) {
                                 *val = temp;
+                                created = temp;
                                 break;
                             } else {
                                 cif_value_clean(*val);
@@ -1123,6 +1125,11 @@ int cif_container_get_value(
                         case SQLITE_DONE:
                             return CIF_OK;
                         /* default: do nothing */
+                    }
+                    /* the call fails: a value object created here is not handed to the caller along with an error code */
+                    if (created != NULL) {
+                        cif_value_free(created);
+                        *val = NULL;
                     }
                     /* fall through */
                 /* default: do nothing */
